@@ -19,7 +19,7 @@ from vlib.ref import cnum
 
 inf, nan = math.inf, math.nan
 COMPONENTS = [0.0, -0.0, 1.0, -1.0, 2.5, 1e-300, 1e200, inf, -inf, nan]
-COMPONENTS_T = COMPONENTS + [5e-324, -2.5, 1.7976931348623157e308, 0.5]
+COMPONENTS_T = COMPONENTS + [5e-324, 1.7976931348623157e308]
 
 HEAD = '# cython: language_level=3\ncimport cython\n'
 GROUP = 10
@@ -270,7 +270,7 @@ def main(ck):
     # ------------------------------------------------------------------ inputs
     comps = ck.pick(COMPONENTS, COMPONENTS_T)
     zs = [complex(x, y) for x in comps for y in comps]
-    n_rand = ck.pick(3000, 100000)
+    n_rand = ck.pick(3000, 50000)
     n_rand_small = ck.pick(1000, 20000)
     seed = ck.seed
     pools = {
